@@ -104,6 +104,7 @@ def run_trees(c, tier, what="basis", lines=None, io=None):
         for extra_pid in ("C01", "C02"):
             if extra_pid != c.pid:
                 cs += [l for l in lib.corpus_cases(extra_pid) if l.startswith("A ") and l.split()[1] in COMP]
+        cs = list(dict.fromkeys(cs))
         stats["corpus_cases"] = len(cs)
         lines = cs + [x[0] for x in own_cases(c.rng, tier)]
         io = None
